@@ -6,8 +6,10 @@ import (
 	"math/rand"
 	"os"
 	"path/filepath"
+	"runtime"
 	"sort"
 	"strings"
+	"sync/atomic"
 	"time"
 
 	protoMetricsV1 "github.com/lindb/common/proto/gen/v1/linmetrics"
@@ -320,4 +322,549 @@ func mdataRollupHistory(rec *trace.Recorder, dir string, rng *rand.Rand, h int, 
 	if len(sum.Samples) < 4 {
 		sum.Samples = append(sum.Samples, map[string]any{"day": day.Format("20060102"), "hour": hour, "files": nfiles, "year": withYear, "compactfirst": compactFirst, "lateyear": lateYear})
 	}
+}
+
+// ---- several source days rolling up into the same target family ------------------------------------------------
+//
+// The 1h target (year calculator) has ONE family per month: every source family (day, hour) of that month is rolled
+// up into it, each from its own source store (day/<yyyymmdd>).  The 5min target (month calculator) has one family
+// per day.  Source family ids and file numbers are allocated per source store, so they repeat from day to day (the
+// first family of every day's store, its first flushed file): what the target family knows about "already rolled
+// up" must not confuse them.  The judgement (RollupM in MetricDataTrace): every target family holds the reference
+// rollup of ALL source families that belong to it, each source file once, and nothing sits in any other family.
+
+type mdSrcFam struct {
+	day   time.Time
+	hour  int
+	start int64
+	fam   tsdb.DataFamily
+}
+
+func rollupPoints(rng *rand.Rand, familyStart int64) []*protoMetricsV1.Metric {
+	hosts := []string{"a", "b", "c"}
+	var ms []*protoMetricsV1.Metric
+	npts := 2 + rng.Intn(8)
+	for p := 0; p < npts; p++ {
+		slot := rng.Intn(360)
+		v := float64(1 + rng.Intn(40))
+		ms = append(ms, &protoMetricsV1.Metric{Name: "cpu", Timestamp: familyStart + int64(slot)*10000 + int64(rng.Intn(9000)),
+			Tags: []*protoMetricsV1.KeyValue{{Key: "host", Value: hosts[rng.Intn(len(hosts))]}},
+			SimpleFields: []*protoMetricsV1.SimpleField{
+				{Name: "s", Value: v, Type: protoMetricsV1.SimpleFieldType_DELTA_SUM},
+				{Name: "mi", Value: v, Type: protoMetricsV1.SimpleFieldType_Min},
+				{Name: "ma", Value: v, Type: protoMetricsV1.SimpleFieldType_Max},
+				{Name: "la", Value: v, Type: protoMetricsV1.SimpleFieldType_LAST},
+			}})
+	}
+	return ms
+}
+
+func mdataMultiDayHistory(rec *trace.Recorder, dir string, rng *rand.Rand, h int, sum *trace.Summary, images bool) {
+	var w *kvwrap.World
+	if images {
+		w = kvwrap.NewWorld(dir, rec)
+		w.Silent = true
+		defer w.Drop()
+	}
+	engine, err := openEngineAt(dir)
+	if err != nil {
+		sum.Unresolved = append(sum.Unresolved, err.Error())
+		return
+	}
+	closed := false
+	defer func() {
+		if !closed {
+			engine.Close()
+		}
+	}()
+	db := fmt.Sprintf("dm%d", h)
+	long := timeutil.Interval(3650 * 24 * 3600 * 1000)
+	opt := &option.DatabaseOption{Intervals: option.Intervals{
+		{Interval: timeutil.Interval(10 * 1000), Retention: long},
+		{Interval: timeutil.Interval(5 * 60 * 1000), Retention: long},
+		{Interval: timeutil.Interval(3600 * 1000), Retention: long}}, AutoCreateNS: true}
+	if err := engine.CreateShards(db, opt, models.ShardID(1)); err != nil {
+		sum.Unresolved = append(sum.Unresolved, err.Error())
+		return
+	}
+	database, _ := engine.GetDatabase(db)
+	shard, _ := database.GetShard(models.ShardID(1))
+
+	// 2-3 days: of one month (one 1h target family for all of them); every fifth history adds the first day of the
+	// next month / year (another 1h family, maybe another 1h store)
+	months := []time.Time{
+		time.Date(2019, 7, 1, 0, 0, 0, 0, time.UTC), time.Date(2020, 2, 1, 0, 0, 0, 0, time.UTC),
+		time.Date(2021, 12, 1, 0, 0, 0, 0, time.UTC), time.Date(2022, 4, 1, 0, 0, 0, 0, time.UTC),
+	}
+	month := months[rng.Intn(len(months))]
+	last := month.AddDate(0, 1, -1).Day()
+	ndays := 2 + rng.Intn(2)
+	var days []time.Time
+	for _, dn := range rng.Perm(last)[:ndays] {
+		days = append(days, month.AddDate(0, 0, dn))
+	}
+	if rng.Intn(2) == 0 {
+		// adjacent days, the month's end included
+		days = days[:0]
+		for i := 0; i < ndays; i++ {
+			days = append(days, month.AddDate(0, 0, last-ndays+i))
+		}
+	}
+	sort.Slice(days, func(i, j int) bool { return days[i].Before(days[j]) })
+	if h%5 == 4 {
+		days = append(days, month.AddDate(0, 1, 0))
+	}
+	mode := []string{"day-by-day", "together", "interleaved", "random"}[h%4]
+	if images {
+		mode = "day-by-day"
+	}
+	sameHour := rng.Intn(2) == 0
+	hourPool := []int{0, 1, 11, 12, 22, 23}
+	nhours := 1 + rng.Intn(2)
+	common := rng.Perm(len(hourPool))[:nhours]
+	var fams []*mdSrcFam
+	perDay := make([][]*mdSrcFam, len(days))
+	maxFiles := 0
+	nfilesOf := map[*mdSrcFam]int{}
+	for d, day := range days {
+		hs := common
+		if !sameHour {
+			hs = rng.Perm(len(hourPool))[:1+rng.Intn(2)]
+		}
+		if images && d == len(days)-1 {
+			// the pass that is cut at every manifest append has one rollup job (one pending source family)
+			hs = hs[:1]
+		}
+		for _, hi := range hs {
+			f := &mdSrcFam{day: day, hour: hourPool[hi], start: day.Add(time.Duration(hourPool[hi]) * time.Hour).UnixMilli()}
+			fams = append(fams, f)
+			perDay[d] = append(perDay[d], f)
+			nfilesOf[f] = 1 + rng.Intn(2)
+			if nfilesOf[f] > maxFiles {
+				maxFiles = nfilesOf[f]
+			}
+		}
+	}
+	// the order of the flushes and the places where a rollup pass runs
+	var writes []*mdSrcFam
+	rollupAfter := map[int]bool{}
+	switch mode {
+	case "day-by-day", "together":
+		for d := range days {
+			for _, f := range perDay[d] {
+				for k := 0; k < nfilesOf[f]; k++ {
+					writes = append(writes, f)
+				}
+			}
+			if mode == "day-by-day" {
+				rollupAfter[len(writes)-1] = true
+			}
+		}
+	case "interleaved":
+		// first file of every family of every day, rollup, second files (later file numbers of the same families), rollup
+		for k := 0; k < maxFiles; k++ {
+			for d := range days {
+				for _, f := range perDay[d] {
+					if k < nfilesOf[f] {
+						writes = append(writes, f)
+					}
+				}
+			}
+			rollupAfter[len(writes)-1] = true
+		}
+	default:
+		for _, f := range fams {
+			for k := 0; k < nfilesOf[f]; k++ {
+				writes = append(writes, f)
+			}
+		}
+		rng.Shuffle(len(writes), func(i, j int) { writes[i], writes[j] = writes[j], writes[i] })
+		for i := range writes {
+			if rng.Intn(5) < 2 {
+				rollupAfter[i] = true
+			}
+		}
+	}
+	rollupAfter[len(writes)-1] = true
+	var dayNames []string
+	for _, d := range days {
+		dayNames = append(dayNames, d.Format("20060102"))
+	}
+	rec.Reset(trace.F{"mode": "rollup-multiday", "h": h, "days": dayNames, "schedule": mode, "samehour": sameHour, "types": map[string]string{}})
+
+	var metricID uint32
+	haveTypes := false
+	openFamilies := func() bool {
+		for _, f := range fams {
+			if f.fam == nil {
+				continue
+			}
+			nf, err := shard.GetOrCrateDataFamily(f.start)
+			if err != nil {
+				rec.Emit("Error", trace.F{"op": "reopen family", "err": err.Error()})
+				return false
+			}
+			f.fam = nf
+		}
+		return true
+	}
+	type srcJ struct {
+		Day    string    `json:"day"`
+		Hour   int       `json:"hour"`
+		Base   int       `json:"base"`
+		Blocks [][]mcell `json:"blocks"`
+	}
+	type famJ struct {
+		Want    string `json:"want"`
+		Sources []srcJ `json:"sources"`
+	}
+	check := func(label string) bool {
+		// what the sources hold (every source family that was written so far), read through the real reader
+		var srcs []struct {
+			f      *mdSrcFam
+			blocks [][]mcell
+		}
+		coincide := map[string][]string{}
+		for _, f := range fams {
+			if f.fam == nil {
+				continue
+			}
+			bl, err := familyBlocks(f.fam.Family(), []uint32{metricID})
+			if err != nil {
+				rec.Emit("Error", trace.F{"op": "read source", "err": err.Error()})
+				return false
+			}
+			b := bl[metricID]
+			if b == nil {
+				b = [][]mcell{}
+			}
+			srcs = append(srcs, struct {
+				f      *mdSrcFam
+				blocks [][]mcell
+			}{f, b})
+			snap := f.fam.Family().GetSnapshot()
+			for fn := range snap.GetCurrent().GetRollupFiles() {
+				k := fmt.Sprintf("%d/%d", f.fam.Family().ID(), fn.Int64())
+				coincide[k] = append(coincide[k], fmt.Sprintf("%s-%02d", f.day.Format("20060102"), f.hour))
+			}
+			snap.Close()
+		}
+		ncoin := 0
+		for _, v := range coincide {
+			if len(v) > 1 {
+				ncoin++
+			}
+		}
+		rec.Emit("Note", trace.F{"what": "pending (source family id, file number) pairs shared by several source stores", "shared": ncoin})
+		for _, s := range storesOf(db, "day") {
+			s.ForceRollup()
+		}
+		waitStores(storesOf(db, "day"))
+		waitStores(storesOf(db, "month"))
+		waitStores(storesOf(db, "year"))
+		for _, tg := range []struct {
+			name, itype string
+			ratio       int
+		}{{"5m", "month", 30}, {"1h", "year", 360}} {
+			tb, wh, err := storeBlocks(storesOf(db, tg.itype), metricID)
+			if err != nil {
+				rec.Emit("Error", trace.F{"op": "read target", "err": err.Error()})
+				return false
+			}
+			// expected target families, from the civil date of the source family (independent of lindb's calculators)
+			var famsJ []*famJ
+			idx := map[string]*famJ{}
+			for _, s := range srcs {
+				var want string
+				var base int
+				if tg.name == "5m" {
+					want = fmt.Sprintf("%s/%d", s.f.day.Format("200601"), s.f.day.Day())
+					base = s.f.hour * 12
+				} else {
+					want = fmt.Sprintf("%s/%d", s.f.day.Format("2006"), int(s.f.day.Month()))
+					base = (s.f.day.Day()-1)*24 + s.f.hour
+				}
+				fj := idx[want]
+				if fj == nil {
+					fj = &famJ{Want: want}
+					idx[want] = fj
+					famsJ = append(famsJ, fj)
+				}
+				fj.Sources = append(fj.Sources, srcJ{Day: s.f.day.Format("20060102"), Hour: s.f.hour, Base: base, Blocks: s.blocks})
+			}
+			rec.Emit("RollupM", trace.F{"label": label, "target": tg.name, "ratio": tg.ratio, "families": famsJ, "targetblocks": tb, "where": wh})
+		}
+		return true
+	}
+
+	type imgPt struct {
+		dir string
+		n   int
+	}
+	var imgs []imgPt
+	pass := 0
+	for i, f := range writes {
+		if f.fam == nil {
+			nf, err := shard.GetOrCrateDataFamily(f.start)
+			if err != nil {
+				sum.Unresolved = append(sum.Unresolved, err.Error())
+				return
+			}
+			f.fam = nf
+		}
+		if err := f.fam.WriteRows(storageRows(rollupPoints(rng, f.start)...)); err != nil {
+			rec.Emit("Error", trace.F{"op": "WriteRows", "err": err.Error()})
+			return
+		}
+		if err := f.fam.Flush(); err != nil {
+			rec.Emit("Error", trace.F{"op": "Flush", "err": err.Error()})
+			return
+		}
+		if !haveTypes {
+			mid, err := database.MetaDB().GetMetricID("default-ns", "cpu")
+			if err != nil {
+				rec.Emit("Error", trace.F{"op": "GetMetricID", "err": err.Error()})
+				return
+			}
+			metricID = uint32(mid)
+			types := map[string]string{}
+			if schema, _ := database.MetaDB().GetSchema(mid); schema != nil {
+				for _, fm := range schema.Fields {
+					types[fmt.Sprint(int(fm.ID))] = fm.Type.String()
+				}
+			}
+			rec.Emit("Types", trace.F{"types": types})
+			haveTypes = true
+		}
+		if !rollupAfter[i] {
+			continue
+		}
+		lastPass := i == len(writes)-1
+		if lastPass && w != nil {
+			w.AfterOp = func(n int, ev string) {
+				if ev != "ManifestAppend" {
+					return
+				}
+				d := fmt.Sprintf("%s-img%d", dir, n)
+				if err := kvwrap.CopyDir(dir, d); err == nil {
+					imgs = append(imgs, imgPt{d, n})
+				}
+			}
+		}
+		pass++
+		ok := check(fmt.Sprintf("pass-%d", pass))
+		if w != nil {
+			w.AfterOp = nil
+		}
+		if !ok {
+			return
+		}
+	}
+	// triggered again: every source file contributes once
+	if !check("again") {
+		return
+	}
+	// ... also after a restart
+	reopen := func(at string) bool {
+		if !closed {
+			engine.Close()
+		}
+		closed = true
+		engine, err = openEngineAt(at)
+		if err != nil {
+			rec.Emit("Error", trace.F{"op": "reopen", "err": err.Error()})
+			return false
+		}
+		closed = false
+		database, _ = engine.GetDatabase(db)
+		if database == nil {
+			rec.Emit("Error", trace.F{"op": "reopen", "err": "database missing"})
+			return false
+		}
+		shard, _ = database.GetShard(models.ShardID(1))
+		return openFamilies()
+	}
+	if !reopen(dir) {
+		return
+	}
+	if !check("after-restart") {
+		return
+	}
+	// a kill after a manifest commit of the last rollup pass (the earlier days are in the target already): restart
+	// from that image and roll up again
+	for _, im := range imgs {
+		if reopen(im.dir) {
+			check(fmt.Sprintf("image-after-commit-%d", im.n))
+		}
+		if !closed {
+			engine.Close()
+			closed = true
+		}
+		os.RemoveAll(im.dir)
+	}
+	if len(sum.Samples) < 6 {
+		sum.Samples = append(sum.Samples, map[string]any{"multiday": dayNames, "schedule": mode, "samehour": sameHour, "families": len(fams), "flushes": len(writes), "passes": pass, "images": len(imgs)})
+	}
+}
+
+// ---- observation (not a check): closing a source store while its rollup job is between two target stores ----------
+//
+// kv.StoreManager.CloseStore holds the manager's mutex while it waits for the background jobs of the store's families
+// (family.close -> condition.Wait); the rollup job of a family looks every target store up through the same manager
+// (GetStoreByName takes the same mutex), once per target interval.  A close that arrives while the job still has a
+// target interval to go never returns, and neither does the job.  The window is opened from outside: the rollup job is
+// parked at the manifest append of its first target (kvwrap gate), CloseStore(source store) is started and seen blocked
+// in WaitGroup.Wait below family.close, then the job is released.  The process is lost afterwards (the manager mutex is
+// held for good), so this runs as a process of its own and reports what the goroutine dump shows.
+func goroutineBlocks() []string {
+	buf := make([]byte, 1<<20)
+	for {
+		n := runtime.Stack(buf, true)
+		if n < len(buf) {
+			buf = buf[:n]
+			break
+		}
+		buf = make([]byte, 2*len(buf))
+	}
+	return strings.Split(string(buf), "\n\n")
+}
+
+func findBlock(all ...string) string {
+	for _, b := range goroutineBlocks() {
+		ok := true
+		for _, s := range all {
+			if !strings.Contains(b, s) {
+				ok = false
+				break
+			}
+		}
+		if ok {
+			return b
+		}
+	}
+	return ""
+}
+
+func mdataCloseProbe(rec *trace.Recorder, dir string) map[string]any {
+	res := map[string]any{"deadlock": false}
+	kvwrap.Install()
+	w := kvwrap.NewWorld(dir, rec)
+	w.Silent = true
+	engine, err := openEngineAt(dir)
+	if err != nil {
+		res["error"] = err.Error()
+		return res
+	}
+	_ = engine
+	db := "dp"
+	long := timeutil.Interval(3650 * 24 * 3600 * 1000)
+	opt := &option.DatabaseOption{Intervals: option.Intervals{
+		{Interval: timeutil.Interval(10 * 1000), Retention: long},
+		{Interval: timeutil.Interval(5 * 60 * 1000), Retention: long},
+		{Interval: timeutil.Interval(3600 * 1000), Retention: long}}, AutoCreateNS: true}
+	if err := engine.CreateShards(db, opt, models.ShardID(1)); err != nil {
+		res["error"] = err.Error()
+		return res
+	}
+	database, _ := engine.GetDatabase(db)
+	shard, _ := database.GetShard(models.ShardID(1))
+	start := time.Date(2019, 7, 2, 3, 0, 0, 0, time.UTC).UnixMilli()
+	family, err := shard.GetOrCrateDataFamily(start)
+	if err != nil {
+		res["error"] = err.Error()
+		return res
+	}
+	if err := family.WriteRows(storageRows(rollupPoints(rand.New(rand.NewSource(1)), start)...)); err != nil {
+		res["error"] = err.Error()
+		return res
+	}
+	if err := family.Flush(); err != nil {
+		res["error"] = err.Error()
+		return res
+	}
+	var armed atomic.Bool
+	parked := make(chan struct{})
+	release := make(chan struct{})
+	w.Gate = func(label string) {
+		if label != "manifest-append" || !armed.Load() {
+			return
+		}
+		buf := make([]byte, 1<<16)
+		me := string(buf[:runtime.Stack(buf, false)])
+		if !strings.Contains(me, "kv.(*family).rollup.func1") || !armed.CompareAndSwap(true, false) {
+			return
+		}
+		close(parked)
+		<-release
+	}
+	src := storesOf(db, "day")
+	if len(src) != 1 {
+		res["error"] = "source store not found"
+		return res
+	}
+	armed.Store(true)
+	src[0].ForceRollup()
+	select {
+	case <-parked:
+	case <-time.After(20 * time.Second):
+		res["error"] = "the rollup job did not reach the commit of its first target"
+		return res
+	}
+	closeDone := make(chan error, 1)
+	go func() { closeDone <- kv.GetStoreManager().CloseStore(src[0].Name()) }()
+	deadline := time.Now().Add(20 * time.Second)
+	closer := ""
+	for closer == "" && time.Now().Before(deadline) {
+		closer = findBlock("kv.(*storeManager).CloseStore", "kv.(*family).close", "sync.(*WaitGroup).Wait")
+		if closer == "" {
+			time.Sleep(5 * time.Millisecond)
+		}
+	}
+	if closer == "" {
+		res["error"] = "CloseStore not seen waiting for the family's jobs"
+		return res
+	}
+	close(release)
+	job := ""
+	for job == "" && time.Now().Before(deadline) {
+		select {
+		case err := <-closeDone:
+			res["closed"] = fmt.Sprint(err)
+			return res
+		default:
+		}
+		job = findBlock("kv.(*family).rollup.func1", "kv.(*storeManager).GetStoreByName", "sync.(*Mutex).Lock")
+		if job == "" {
+			time.Sleep(5 * time.Millisecond)
+		}
+	}
+	if job == "" {
+		res["error"] = "rollup job not seen at its second target lookup"
+		return res
+	}
+	// each waits for the other: the picture cannot change any more; looked at again after a while all the same
+	time.Sleep(1500 * time.Millisecond)
+	select {
+	case err := <-closeDone:
+		res["closed"] = fmt.Sprint(err)
+		return res
+	default:
+	}
+	closer = findBlock("kv.(*storeManager).CloseStore", "kv.(*family).close", "sync.(*WaitGroup).Wait")
+	job = findBlock("kv.(*family).rollup.func1", "kv.(*storeManager).GetStoreByName", "sync.(*Mutex).Lock")
+	if closer != "" && job != "" {
+		res["deadlock"] = true
+		frames := func(b string) []string {
+			var out []string
+			for _, ln := range strings.Split(b, "\n") {
+				if strings.Contains(ln, "lindb/kv.") || strings.HasPrefix(ln, "sync.") {
+					out = append(out, strings.TrimSpace(ln))
+				}
+			}
+			return out
+		}
+		res["closer"] = frames(closer)
+		res["job"] = frames(job)
+	}
+	return res
 }
